@@ -453,8 +453,10 @@ func (p *Parser) peek() byte {
 func (p *Parser) peekTwo() (byte, byte) {
 	// TODO: This should loop for slow readers, e.g. those providing one byte at
 	// a time. Use a loop and test it with [testing/iotest.OneByteReader].
-	if int(p.bsp+1) >= len(p.bs) {
-		p.fill()
+	for int(p.bsp+1) >= len(p.bs) {
+		if p.fill() == 0 {
+			break
+		}
 	}
 	if int(p.bsp) >= len(p.bs) {
 		return utf8.RuneSelf, utf8.RuneSelf
